@@ -284,6 +284,95 @@ Section Drivers.
     end.
 End Drivers.
 
+(* ------------------------------------------------------------------------------------------ *)
+(* Exposure with debug=True: after every model call ModelGroup.run captures the detector
+   (detector.to_xarray() and the bookkeeping of the intermediate tree).  The capture is OUTSIDE the
+   try statement: if it fails - a model left a bucket in a state that cannot be read - the exception
+   propagates without a group/model note, and nothing runs after it.  `cap run step key = Some (class,
+   payload)` iff the capture after that call raises. *)
+Section Debug.
+  Variable beh cap : behaviour.
+
+  Definition call_dbg (r s : nat) (g : string) (m : model) : res unit :=
+    match call_model beh r s m with
+    | Raise e => Raise (annotate e [note_text g (m_name m) (m_func m)])
+    | Ok _ => match cap r s (m_key m) with
+              | Some (c, p) => Raise (raise_of c p)
+              | None => Ok tt
+              end
+    end.
+
+  Fixpoint group_run_dbg (r s : nat) (g : string) (ms : list model) : res unit * list event :=
+    match ms with
+    | [] => (Ok tt, [])
+    | m :: ms' =>
+        if m_enabled m then
+          match call_dbg r s g m with
+          | Raise e => (Raise e, [mk_ev r s g m])
+          | Ok _ => let '(o, tr) := group_run_dbg r s g ms' in (o, mk_ev r s g m :: tr)
+          end
+        else group_run_dbg r s g ms'
+    end.
+
+  Fixpoint processor_run_dbg (r s : nat) (gs : list group) : res unit * list event :=
+    match gs with
+    | [] => (Ok tt, [])
+    | g :: gs' =>
+        match group_run_dbg r s (g_name g) (g_models g) with
+        | (Raise e, tr) => (Raise e, tr)
+        | (Ok _, tr) => let '(o, tr') := processor_run_dbg r s gs' in (o, (tr ++ tr')%list)
+        end
+    end.
+
+  Fixpoint exposure_steps_dbg (r : nat) (pl : list group) (steps : list nat) : res (list nat) * list event :=
+    match steps with
+    | [] => (Ok [], [])
+    | s :: ss =>
+        match processor_run_dbg r s pl with
+        | (Raise e, tr) => (Raise e, tr)
+        | (Ok _, tr) => let '(o, tr') := exposure_steps_dbg r pl ss in (map_res (cons s) o, (tr ++ tr')%list)
+        end
+    end.
+
+  Definition exposure_dbg (r : nat) (pl : list group) (nsteps : nat) := exposure_steps_dbg r pl (seq 0 nsteps).
+
+  (* flat specification: what stops the run at a call - the model's exception (annotated) or, if the
+     model returned, the failure of the capture (as raised) *)
+  Definition ev_stop (ev : event) : option exn :=
+    match ev_fault beh ev with
+    | Some (c, p) => Some (annotate (raise_of c p) [note_of_event ev])
+    | None => match cap (ev_run ev) (ev_step ev) (ev_key ev) with
+              | Some (c, p) => Some (raise_of c p)
+              | None => None
+              end
+    end.
+
+  Fixpoint flat_exec_dbg (evs : list event) : res unit * list event :=
+    match evs with
+    | [] => (Ok tt, [])
+    | ev :: rest =>
+        match ev_stop ev with
+        | Some e => (Raise e, [ev])
+        | None => let '(o, tr) := flat_exec_dbg rest in (o, ev :: tr)
+        end
+    end.
+
+  Fixpoint first_stop (evs : list event) : option (list event * event * exn) :=
+    match evs with
+    | [] => None
+    | ev :: rest =>
+        match ev_stop ev with
+        | Some e => Some ([], ev, e)
+        | None => match first_stop rest with
+                  | Some (pre, fe, e) => Some (ev :: pre, fe, e)
+                  | None => None
+                  end
+        end
+    end.
+End Debug.
+
+Definition no_capture_failure : behaviour := fun _ _ _ => None.
+
 (* a concrete `compute`: force the cells left to right, stop at the first failure *)
 Fixpoint compute_seq (ts : list (res (list nat))) : res (list (list nat)) :=
   match ts with
@@ -599,6 +688,9 @@ Record c09_case := {
   c_outputs : bool;              (* the running mode has an `outputs` section / object *)
   c_cleanup_fails : bool;        (* pyxel.outputs.save_log_file replaced by a function that raises OSError *)
   c_chained : bool;              (* the model raises while it handles LookupError("inner-" ++ payload) *)
+  c_debug : bool;                (* exposure with debug=True *)
+  c_corrupt : list (nat * nat * nat);   (* (run, step, model key): the model returns but leaves a bucket that the
+                                           debug capture cannot read (used with c_debug only) *)
   c_pl : list group;
   c_nsteps : nat;
   c_runs : list run;             (* exposure: one run without parameters; calibration: unused *)
@@ -672,7 +764,8 @@ Definition all_keys (runs : list run) : list string := flat_map (fun r => map fs
 (* violation codes: 0 none | 1 no exception (a result came back) | 2 class | 3 message | 4 group/model
    identity | 5 run parameters | 6 call log is not the prefix up to the fault | 7 dask: not surfaced
    at the latest at load | 8 calibration: not surfaced | 9 clean-up failure: the original exception is
-   neither what surfaces nor in its chain | 10 the exception the model was handling left the chain *)
+   neither what surfaces nor in its chain | 10 the exception the model was handling left the chain
+   | 11 debug mode: the capture after a model call failed and the run did not raise *)
 (* identity is due for Exception subclasses only: KeyboardInterrupt & co. are not to be touched *)
 Definition check_exn (keys : list string) (ev : event) (c : ecls) (p : string) (o : outcome) : nat :=
   if negb (is_raised o) then 1
@@ -681,14 +774,28 @@ Definition check_exn (keys : list string) (ev : event) (c : ecls) (p : string) (
   else if is_exception c && negb (spec_identity keys ev o) then 4
   else 0.
 
+Definition cap_of (c : c09_case) : behaviour :=
+  fun r s k =>
+    if c_debug c && existsb (fun x => match x with (r', s', k') => Nat.eqb r' r && Nat.eqb s' s && Nat.eqb k' k end)
+                            (c_corrupt c)
+    then Some (ValueError, "capture") else None.
+
 (* sequential: exposure and observation, through any entry point *)
 Definition violation_seq (c : c09_case) : nat :=
   let beh := beh_of (c_faults c) in
   let keys := all_keys (c_runs c) in
-  match first_fault beh (sched_obs (c_pl c) (c_nsteps c) (c_runs c)) with
+  let sched := sched_obs (c_pl c) (c_nsteps c) (c_runs c) in
+  match first_stop beh (cap_of c) sched with
   | None => 0
-  | Some (pre, fe, cl, p) =>
+  | Some (pre, fe, _) =>
       let o := o_call c in
+      match ev_fault beh fe with
+      | None =>
+          (* the debug capture after this call fails: the run must raise (whatever the capture raised) and stop *)
+          if negb (is_raised o) then 11
+          else if negb (list_eqb t3_eqb (o_trace c) (map proj_ev (pre ++ [fe])%list)) then 6
+          else 0
+      | Some (cl, p) =>
       let k := check_exn keys fe cl p o in
       if c_cleanup_fails c && negb (Nat.eqb k 0) then
         (* the clean-up of pyxel.run's finally block raised on top: the original must be in the chain *)
@@ -701,6 +808,7 @@ Definition violation_seq (c : c09_case) : nat :=
       else if negb (list_eqb t3_eqb (o_trace c) (map proj_ev (pre ++ [fe])%list)) then 6
       else if c_chained c && negb (spec_in_chain "LookupError" (String.append "inner-" p) o) then 10
       else 0
+      end
   end.
 
 Definition violation_code (c : c09_case) : nat :=
@@ -784,13 +892,21 @@ Definition xres_agrees (c : c09_case) (x : xres unit) (o : outcome) : bool :=
                                  | _ => false end)
   end.
 
+Definition last_of {A} (l : list A) : list A := match rev l with [] => [] | a :: _ => [a] end.
+
 Definition case_mismatch (c : c09_case) : bool :=
   let beh := beh_of (c_faults c) in
   match c_mode c with
   | MExposure =>
-      let '(o, tr) := exposure beh 0 (c_pl c) (c_nsteps c) in
+      let '(o, tr) := exposure_dbg beh (cap_of c) 0 (c_pl c) (c_nsteps c) in
       negb (list_eqb t3_eqb (o_trace c) (map proj_ev tr))
-      || negb (xres_agrees c (entry_outcome c o) (o_call c))
+      || match o with
+         | Raise _ =>
+             if existsb (fun ev => match ev_fault beh ev with None => true | Some _ => false end) (last_of tr)
+             then negb (is_raised (o_call c))     (* stopped by the capture: class and text are xarray's, not compared *)
+             else negb (xres_agrees c (entry_outcome c o) (o_call c))
+         | Ok _ => negb (xres_agrees c (entry_outcome c o) (o_call c))
+         end
   | MObsSeq =>
       let '(o, tr) := match c_entry c with
                       | EDeprecated => obs_seq_old beh (c_pl c) (c_nsteps c) (c_runs c)
